@@ -100,6 +100,10 @@ class Interp(object):
         self.ext = extmodels            # dotted name -> python callable(interp, st, args, kwargs)
         self.inlined = set()
         self.called_contracts = set()
+        self._pending_forks = []
+        import os as _os
+        # stack of lists of requested alternative outcomes of branching helper functions, one list per statement being executed
+        self._inline_requests = None if _os.environ.get('SEDVC_NO_INLINE_BRANCHES') == '1' else []
         self.dropped = {}
         self.loop_specs = {}            # (qualname, ordinal) -> LoopSpec
 
@@ -160,16 +164,57 @@ class Interp(object):
                 if s.status != 'run':
                     nxt.append(s)
                     continue
-                try:
-                    nxt.extend(self.exec_stmt(node, s, fr))
-                except Raised as e:
-                    s.status = 'raise'
-                    s.exc = (e.exc, e.msg, getattr(node, 'lineno', 0))
-                    nxt.append(s)
+                nxt.extend(self._exec_stmt_all_choices(node, s, fr))
             states = nxt
             if len(states) > 256:
                 raise Unsupported("path explosion in %s" % fr.qualname)
         return states
+
+    def _exec_stmt_once(self, node, s, fr):
+        try:
+            return self.exec_stmt(node, s, fr)
+        except Raised as e:
+            s.status = 'raise'
+            s.exc = (e.exc, e.msg, getattr(node, 'lineno', 0))
+            return [s]
+
+    def _exec_stmt_all_choices(self, node, s, fr):
+        """One statement, on every path.  A helper function without a contract is inlined (call_repo); if its body
+        branches on symbolic data the call has several normal outcomes, but an expression can only continue with one.
+        The first outcome is taken and the others are REQUESTED: the statement is then executed again from a copy of
+        the state it started in, with the choice forced, until every combination of outcomes has been taken.  (States
+        that fork off while forced choices are still outstanding repeat a path of an earlier execution and are
+        dropped.)"""
+        if self._inline_requests is None:
+            return self._exec_stmt_once(node, s, fr)        # (replay switched off: SEDVC_NO_INLINE_BRANCHES=1)
+        # (this statement may itself be part of a helper's body that is being replayed for an OUTER statement: the outer
+        #  statement's outstanding choices are put aside while it runs and given back to every state it ends in)
+        outer_f, outer_t = list(getattr(s, 'forced_choices', ())), list(getattr(s, 'taken_choices', ()))
+        snapshot = s.fork()
+        snapshot.inline_depth = getattr(s, 'inline_depth', 0)
+        s.forced_choices, s.taken_choices = [], []
+        self._inline_requests.append([])
+        try:
+            outs = list(self._exec_stmt_once(node, s, fr))
+            todo = self._inline_requests[-1]
+            done = 0
+            while done < len(todo):
+                choices = todo[done]
+                done += 1
+                if done > 64:
+                    raise Unsupported("too many combinations of branches in helper functions called by one statement of %s" % fr.qualname)
+                s2 = snapshot.fork()
+                s2.inline_depth = snapshot.inline_depth
+                s2.forced_choices, s2.taken_choices = list(choices), []
+                more = self._exec_stmt_once(node, s2, fr)
+                if getattr(s2, 'forced_choices', None):
+                    raise Unsupported("replaying the branches of a helper function did not reach them again in %s" % fr.qualname)
+                outs.extend(o for o in more if o is s2 or not getattr(o, 'forced_choices', None))
+            for o in outs:
+                o.forced_choices, o.taken_choices = list(outer_f), list(outer_t)
+            return outs
+        finally:
+            self._inline_requests.pop()
 
     def exec_stmt(self, node, st, fr):
         m = getattr(self, 'stmt_' + type(node).__name__, None)
@@ -617,7 +662,7 @@ class Interp(object):
             return ExcClass(name)
         if name in ('len', 'range', 'int', 'float', 'min', 'max', 'abs', 'isinstance', 'type', 'enumerate',
                     'zip', 'sorted', 'list', 'tuple', 'str', 'open', 'sum', 'bool', 'dict', 'print', 'issubclass',
-                    'hasattr', 'getattr', 'round', 'any', 'all', 'repr', 'set', 'reversed', 'input'):
+                    'hasattr', 'getattr', 'round', 'any', 'all', 'repr', 'set', 'reversed', 'input', 'slice'):
             return ExtFunc('builtins.' + name)
         if name == 'object':
             return TypeVal('object')
@@ -1358,9 +1403,30 @@ class Interp(object):
             # others raise (validation code); the raising paths become forks of the caller
             normal = [s for s in outs if s.status in ('run', 'return')]
             raising = [s for s in outs if s.status == 'raise']
-            if len(normal) != 1 or len(normal) + len(raising) != len(outs):
+            forced = False
+            pick = 0
+            all_accounted = len(normal) + len(raising) == len(outs)
+            if len(normal) > 1 and all_accounted and self._inline_requests:
+                # several normal outcomes: continue with one, request the others (see _exec_stmt_all_choices)
+                fc = getattr(st, 'forced_choices', None)
+                taken = list(getattr(st, 'taken_choices', ()))
+                if fc:
+                    pick, forced = fc[0], True
+                    if pick >= len(normal):
+                        st.env = saved_env
+                        raise Unsupported("replay of %s found fewer outcomes than before" % qualname)
+                else:
+                    for alt in range(1, len(normal)):
+                        self._inline_requests[-1].append(taken + [alt])
+                for s_ in normal:
+                    s_.forced_choices = list(fc[1:]) if fc else []
+                    s_.taken_choices = taken + [pick]
+                normal = [normal[pick]]
+            if len(normal) != 1 or not all_accounted:
                 st.env = saved_env
-                raise Unsupported("inlined function %s branches on symbolic data: it needs a contract" % qualname)
+                raise Unsupported("inlined function %s branches on symbolic data: it needs a contract (%d outcomes: %s; requests %s)" % (qualname, len(outs), [s.status for s in outs], self._inline_requests is not None and len(self._inline_requests)))
+            if forced:
+                raising = []            # (registered when this call was first executed)
             for rs in raising:
                 if rs is st:
                     rs = st.fork()      # st itself took the raising branch: keep a copy of it as the fork
